@@ -59,12 +59,17 @@ type Case struct {
 	Elems   []Elem `json:"elems"`
 	// Chunks are the sizes of successive reads (direct, http) or messages (ws), cycled.
 	Chunks []int `json:"chunks"`
+	// EOFWithData: the last read of the underlying byte source returns data and io.EOF together;
+	// with the http carrier the base64 decoder then reads that source directly (no buffering layer in between).
+	EOFWithData bool `json:"eof_with_data,omitempty"`
 }
 
 type chunkReader struct {
 	data   []byte
 	chunks []int
 	i      int
+	// eofWithData: the final read returns its bytes together with io.EOF (legal io.Reader behaviour)
+	eofWithData bool
 }
 
 func (c *chunkReader) Read(p []byte) (int, error) {
@@ -87,6 +92,9 @@ func (c *chunkReader) Read(p []byte) (int, error) {
 	}
 	copy(p, c.data[:n])
 	c.data = c.data[n:]
+	if c.eofWithData && len(c.data) == 0 {
+		return n, io.EOF
+	}
 	return n, nil
 }
 
@@ -245,14 +253,17 @@ func Run(c Case) error {
 	}
 	switch c.Carrier {
 	case "direct":
-		return readAll(&chunkReader{data: bytes.Join(writes, nil), chunks: c.Chunks}, c.Elems)
+		return readAll(&chunkReader{data: bytes.Join(writes, nil), chunks: c.Chunks, eofWithData: c.EOFWithData}, c.Elems)
 	case "http":
 		// the client side encodes every write as one padded base64 block; blocks are concatenated on the POST channel
 		var stream []byte
 		for _, w := range writes {
 			stream = append(stream, base64.StdEncoding.EncodeToString(w)...)
 		}
-		cr := &chunkReader{data: stream, chunks: c.Chunks}
+		cr := &chunkReader{data: stream, chunks: c.Chunks, eofWithData: c.EOFWithData}
+		if c.EOFWithData {
+			return readAll(gortsplib.VerifNewBase64StreamReader(cr), c.Elems)
+		}
 		tun := gortsplib.VerifNewServerHTTPTunnel(nil, bufio.NewReader(cr), nil)
 		return readAll(tun, c.Elems)
 	case "ws":
